@@ -6,7 +6,9 @@ package spine
 
 import (
 	"fmt"
+	"reflect"
 	"sort"
+	"strings"
 
 	"github.com/enbility/spine-go/api"
 	"github.com/enbility/spine-go/model"
@@ -105,4 +107,55 @@ func verifAddr(a *model.FeatureAddressType) string {
 		f = fmt.Sprint(uint(*a.Feature))
 	}
 	return fmt.Sprintf("%s%v/%s", d, a.Entity, f)
+}
+
+// VerifFeatureShape renders the key structure of every map-typed private field of a local feature (two levels:
+// which connections have an entry, and which keys that entry holds — an empty map is not the same as no map).
+// It is generic on purpose: bookkeeping a change adds is part of it without this file knowing the field.
+//
+//go:norace
+func VerifFeatureShape(f api.FeatureLocalInterface) string {
+	var r *FeatureLocal
+	switch x := f.(type) {
+	case *FeatureLocal:
+		r = x
+	case *NodeManagement:
+		r = x.FeatureLocal
+	default:
+		return "?"
+	}
+	v := reflect.ValueOf(r).Elem()
+	var out []string
+	for i := 0; i < v.NumField(); i++ {
+		fv := v.Field(i)
+		if fv.Kind() != reflect.Map {
+			continue
+		}
+		name := v.Type().Field(i).Name
+		if name == "operations" || name == "functionDataMap" {
+			continue
+		}
+		out = append(out, name+"="+verifMapShape(fv, 2))
+	}
+	return strings.Join(out, " ")
+}
+
+func verifMapShape(m reflect.Value, depth int) string {
+	if m.IsNil() {
+		return "nil"
+	}
+	var ks []string
+	for _, k := range m.MapKeys() {
+		s := fmt.Sprint(k)
+		if e := m.MapIndex(k); depth > 1 && e.Kind() == reflect.Map {
+			s += verifMapShape(e, depth-1)
+		}
+		ks = append(ks, s)
+	}
+	if depth == 1 || m.Type().Key().Kind() != reflect.String {
+		// inner level: message counters and the like — how many, not which (absolute counters depend on the length of the history)
+		return fmt.Sprintf("{%d}", len(ks))
+	}
+	sort.Strings(ks)
+	return "{" + strings.Join(ks, ",") + "}"
 }
